@@ -23,6 +23,7 @@ VARIANTS = [
     "known-but-unsupported version names",
     "wall clock stepped backwards/forwards between two readings",
     "calling thread stalled at its n-th pre-emption point inside status()",
+    "status reply arriving 3 s .. 2 min late",
     "allowed versions naming one version more than once (same value, two names, name and number)"
 ]
 RUNS = {'quick': 6000, 'thorough': 250000}
@@ -51,6 +52,15 @@ def scenario_for(seed, index, tier):
         sc['wall_jumps'] = [[rng.randrange(3),
                              rng.choice([-5000000, -3600 * 10**6, -20000,
                                          5000000])]]
+    rl = make_rng('slow-reply', ID, seed, index)
+    st0 = sc['server']['conns'][1 if sc.get('prior') else 0].get('status')
+    if st0 and st0.get('mode') == 'reply' and not sc.get('twin') and \
+            rl.random() < 0.15:
+        # a slow server: the status reply comes seconds late (still a reply:
+        # no fallback to the default version, no giving up)
+        st0['reply_delay_us'] = rl.choice([3000000, 6000000, 31000000,
+                                           120000000])
+        sc['slow_reply'] = True
     rs = make_rng('stall', ID, seed, index)
     if sc['call'] == 'status' and not sc.get('twin') and rs.random() < 0.5:
         # fault: the calling thread is descheduled for a while somewhere
